@@ -46,30 +46,34 @@ Section QueryTotal.
   Qed.
 
   (* the JSON body of a container parameter: the decoder proper, on its own token stream *)
-  Lemma object_param_safe ps ts me sub :
+  Lemma object_param_safe ps ts me sub eof :
     safe (obind (expect TOpenObj ts) (fun r =>
             obind (object_body orc e me (S (length ts)) 0 ps r sub [])
-                  (fun sr => obind (expect TCloseObj (snd sr)) (fun r2 => Ok (fst sr, r2))))).
+                  (fun sr => obind (expect TCloseObj (snd sr)) (fun r2 =>
+                     obind (end_of_input r2 eof) (fun _ => Ok (fst sr, r2)))))).
   Proof.
     apply safe_bind; [intros; exact I | apply expect_spec |]. intros r Hr. apply expect_len in Hr.
     destruct (level_all orc e me (S (length ts))) as (_ & Hob & _).
     assert (Hb := Hob 0%N ps r sub [] ltac:(lia)).
     destruct (object_body orc e me (S (length ts)) 0 ps r sub []) as [[m' r']| | |];
       cbn [okish] in Hb; try contradiction; [|exact I].
-    cbn [obind fst snd]. apply safe_bind; [intros; exact I | apply expect_spec | intros; exact I].
+    cbn [obind fst snd]. apply safe_bind; [intros; exact I | apply expect_spec |].
+    intros r2 _. unfold end_of_input. destruct r2; [destruct eof|]; exact I.
   Qed.
 
-  Lemma oneof_param_safe ps ts me sub :
+  Lemma oneof_param_safe ps ts me sub eof :
     safe (obind (expect TOpenObj ts) (fun r =>
             obind (oneof_body orc e me (S (length ts)) 0 ps r sub [] [] None)
-                  (fun sr => obind (expect TCloseObj (snd sr)) (fun r2 => Ok (fst sr, r2))))).
+                  (fun sr => obind (expect TCloseObj (snd sr)) (fun r2 =>
+                     obind (end_of_input r2 eof) (fun _ => Ok (fst sr, r2)))))).
   Proof.
     apply safe_bind; [intros; exact I | apply expect_spec |]. intros r Hr. apply expect_len in Hr.
     destruct (level_all orc e me (S (length ts))) as (_ & _ & Hoo & _).
     assert (Hb := Hoo 0%N ps r sub [] [] None ltac:(lia)).
     destruct (oneof_body orc e me (S (length ts)) 0 ps r sub [] [] None) as [[m' r']| | |];
       cbn [okish] in Hb; try contradiction; [|exact I].
-    cbn [obind fst snd]. apply safe_bind; [intros; exact I | apply expect_spec | intros; exact I].
+    cbn [obind fst snd]. apply safe_bind; [intros; exact I | apply expect_spec |].
+    intros r2 _. unfold end_of_input. destruct r2; [destruct eof|]; exact I.
   Qed.
 
   Lemma query_final_safe props name vals m st : safe (query_final orc e props name vals m st).
